@@ -119,3 +119,27 @@ Proof. intros H. unfold dp_value. rewrite (ddedup_unshared _ H). reflexivity. Qe
 Lemma dp_distinct_shared_refuted :
   exists rows, shared rows = true /\ ~ dp_value ACount true rows == eval_agg ACount (vdedup (map snd rows)).
 Proof. exists [(1%Z, Some 5); (2%Z, Some 5)]. split; [reflexivity|]. vm_compute. discriminate. Qed.
+
+Lemma In_firstn : forall (A : Type) n (l : list A) x, In x (firstn n l) -> In x l.
+Proof. intros A n. induction n as [|n IH]; intros [|y l] x H; cbn [firstn] in H; try contradiction.
+  destruct H as [H|H]; [left; exact H|right; apply IH; exact H]. Qed.
+Lemma In_skipn : forall (A : Type) n (l : list A) x, In x (skipn n l) -> In x l.
+Proof. intros A n. induction n as [|n IH]; intros [|y l] x H; cbn [skipn] in H; try exact H.
+  right. apply IH. exact H. Qed.
+
+Lemma window_map : forall (A B : Type) (f : A -> B) lim off (l : list A),
+  window lim off (map f l) = map f (window lim off l).
+Proof. intros A B f lim off l. unfold window. rewrite skipn_map, firstn_map. reflexivity. Qed.
+
+(* if the rewritten aggregates of every group are the exact ones, so are those of every window of the groups *)
+Lemma window_exact : forall (G R : Type) (dp ex : G -> R) (eqR : R -> R -> Prop) lim off (groups : list G),
+  (forall g, In g groups -> eqR (dp g) (ex g)) ->
+  Forall2 eqR (window lim off (map dp groups)) (window lim off (map ex groups)).
+Proof.
+  intros G R dp ex eqR lim off groups H. rewrite !window_map.
+  assert (Hin : forall g, In g (window lim off groups) -> In g groups).
+  { intros g Hg. unfold window in Hg. apply In_firstn in Hg. apply In_skipn in Hg. exact Hg. }
+  induction (window lim off groups) as [|g gs IH]; cbn [map]; constructor.
+  - apply H, Hin. left. reflexivity.
+  - apply IH. intros g' Hg'. apply Hin. right. exact Hg'.
+Qed.
